@@ -3,3 +3,8 @@ add("C18","exploration",
  "Held on the generated lists (sizes 0..5000, all duplicate layouts, comma/file/plug-in+regex) and on the e2e runs listed in the evidence; nothing is claimed for list shapes outside the generator.",
  "Trusted: Go regexp, sort; assumes blank entries are out of scope; the /regex/ filter is reached through a verif-tagged plug-in module.",
  "DESIGN.md §2 C18")
+add("C11","exploration",
+ "runtime monitoring: seeded grammar-based query generator; oracle A over the parsed query's exported fields, oracle B over the CSV produced by running the parsed query through the real aggregation pipeline against an independent reference evaluator; malformed classes must error; mutants run in crash-isolated worker processes",
+ "Held on the generated valid queries (all clause orders, keyword cases, separator styles, back-quoted and quoted operands), the 28 malformed classes and the mutants/prefixes listed in the evidence; not a proof about the whole grammar.",
+ "Trusted: the harness' query model and reference evaluator (internal/mq), Go regexp/strconv; lower-case operator/function names only.",
+ "DESIGN.md §2 C11")
